@@ -4,6 +4,7 @@ import NmVerif.Linalg
 import NmVerif.Lemmas.LinalgList
 import NmVerif.Lemmas.LinalgMatmul
 import NmVerif.Lemmas.LinalgMatmulV2
+import NmVerif.Lemmas.LinalgDot
 /-
   C16 — Linear-algebra routines equal their mathematical definitions.
   Only property statements (+ non-vacuity examples, counterexample theorems) live here; the proofs are in
@@ -74,5 +75,50 @@ theorem matmulv2_value (sa sb dst : Shape) (ha : 1 ≤ sa.length) (hb : 1 ≤ sb
 theorem matmul_v1_1d_counterexample :
     (matmulV1 [3] [3]).map (fun r => r.get []) = some none ∧
     (specMatmul [3] [3]).map (fun r => r.get []) = some [([0], [0]), ([1], [1]), ([2], [2])] := by decide
+
+/-! ### dot / inner / outer / vecdot
+
+  Each theorem: whenever NumPy accepts the operand shapes (`specX sa sb = some s`, ranks ≥ 1, positive extents), the
+  nmtools pipeline yields a result of NumPy's shape whose every element sums exactly NumPy's terms, in order. -/
+
+/-- `view::dot` = `np.dot`: `dot(a,b)[i…, j…, m] = Σ_k a[i…, k]·b[j…, k, m]` (1-d rhs: `Σ_k a[i…,k]·b[k]`),
+    shape `a.shape[:-1] ++ b.shape[:-2] ++ b.shape[-1:]` -/
+theorem dot_eq_def (sa sb : Shape) (s : Arr (List Term)) (ha : 1 ≤ sa.length) (hb : 1 ≤ sb.length) (hpb : Pos sb)
+    (hacc : specDot sa sb = some s) :
+    ∃ r, dot sa sb = some r ∧ r.shape = s.shape ∧ ∀ d, InShape d s.shape → r.get d = s.get d :=
+  dot_eq_spec sa sb s ha hb hpb hacc
+
+example : (specDot [2, 3] [4, 3, 5]).map (·.shape) = some [2, 4, 5] := by decide
+example : (specDot [2, 3] [4, 3, 5]).map (·.get [1, 2, 4]) =
+    some [([1, 0], [2, 0, 4]), ([1, 1], [2, 1, 4]), ([1, 2], [2, 2, 4])] := by decide
+
+/-- `view::inner` = `np.inner`: `inner(a,b)[i…, j…] = Σ_k a[i…, k]·b[j…, k]`, shape `a.shape[:-1] ++ b.shape[:-1]` -/
+theorem inner_eq_def (sa sb : Shape) (s : Arr (List Term)) (ha : 1 ≤ sa.length) (hb : 1 ≤ sb.length) (hpb : Pos sb)
+    (hacc : specInner sa sb = some s) :
+    ∃ r, inner sa sb = some r ∧ r.shape = s.shape ∧ ∀ d, InShape d s.shape → r.get d = s.get d :=
+  inner_eq_spec sa sb s ha hb hpb hacc
+
+example : (specInner [2, 3] [4, 2, 3]).map (·.shape) = some [2, 4, 2] := by decide
+example : (specInner [2, 3] [4, 2, 3]).map (·.get [1, 3, 0]) =
+    some [([1, 0], [3, 0, 0]), ([1, 1], [3, 0, 1]), ([1, 2], [3, 0, 2])] := by decide
+
+/-- `view::outer` = `np.outer`: shape `(size a, size b)`, `out[x, y] = a.ravel()[x]·b.ravel()[y]`, any operand ranks -/
+theorem outer_eq_def (sa sb : Shape) (hpa : Pos sa) (hpb : Pos sb) :
+    ∃ r, outer sa sb = some r ∧ r.shape = (specOuter sa sb).shape ∧
+      ∀ d, InShape d (specOuter sa sb).shape → r.get d = (specOuter sa sb).get d :=
+  outer_eq_spec sa sb hpa hpb
+
+example : (specOuter [2, 3] [2]).shape = [6, 2] ∧ (specOuter [2, 3] [2]).get [4, 1] = ([1, 1], [1]) := by decide
+
+/-- `view::vecdot` = `np.vecdot`: the last axes are contracted, the leading axes broadcast:
+    `out[β…] = Σ_k a[β_a…, k]·b[β_b…, k]` -/
+theorem vecdot_eq_def (sa sb : Shape) (s : Arr (List Term)) (ha : 1 ≤ sa.length) (hb : 1 ≤ sb.length)
+    (hacc : specVecdot sa sb = some s) :
+    ∃ r, vecdot sa sb = some r ∧ r.shape = s.shape ∧ ∀ d, InShape d s.shape → r.get d = s.get d :=
+  vecdot_eq_spec sa sb s ha hb hacc
+
+example : (specVecdot [2, 1, 3] [4, 3]).map (·.shape) = some [2, 4] := by decide
+example : (specVecdot [2, 1, 3] [4, 3]).map (·.get [1, 2]) =
+    some [([1, 0, 0], [2, 0]), ([1, 0, 1], [2, 1]), ([1, 0, 2], [2, 2])] := by decide
 
 end NmVerif.Props.C16
